@@ -528,8 +528,8 @@ func (w *redisWorld) inject(f *Fault) bool {
 		moved := 0
 		for sl := f.From; sl <= f.To && sl < cluster.NumSlots; sl++ {
 			src := int(c.Owner[sl])
-			if src < 0 || src == f.Dst {
-				continue
+			if src < 0 || src == f.Dst || w.migSlots[sl] {
+				continue // (a slot in the middle of a migration is not reassigned under it: not a legal cluster history)
 			}
 			c.MoveAllKeys(sl, src, f.Dst)
 			c.Owner[sl] = int16(f.Dst)
